@@ -4,6 +4,8 @@ import (
 	"fmt"
 	"go/ast"
 	"go/token"
+	"os"
+	"path/filepath"
 	"strings"
 )
 
@@ -240,6 +242,95 @@ func init() {
 		})
 		fmt.Fprintf(&sb, "/-- Plan: the calls that split and plan the two halves, in source order -/\n")
 		fmt.Fprintf(&sb, "def planCalls : List String := %s\n", ipLeanStrList(calls))
+		// who hands a script to Plan: the functions of package logql_transpiler_v2 that call Plan, and Transpile's body
+		ents, err := os.ReadDir(filepath.Join(repo, "reader/logql/logql_transpiler_v2"))
+		if err != nil {
+			return "", err
+		}
+		var callers []string
+		var transpile []string
+		for _, e := range ents {
+			if e.IsDir() || !strings.HasSuffix(e.Name(), ".go") || strings.HasSuffix(e.Name(), "_test.go") {
+				continue
+			}
+			fs2, f2, err := parseFile("reader/logql/logql_transpiler_v2/" + e.Name())
+			if err != nil {
+				return "", err
+			}
+			for _, d := range f2.Decls {
+				fd2, ok := d.(*ast.FuncDecl)
+				if !ok || fd2.Body == nil {
+					continue
+				}
+				calls := false
+				ast.Inspect(fd2.Body, func(n ast.Node) bool {
+					if ce, ok := n.(*ast.CallExpr); ok {
+						if id, ok := ce.Fun.(*ast.Ident); ok && id.Name == "Plan" {
+							calls = true
+						}
+					}
+					return true
+				})
+				if calls {
+					callers = append(callers, e.Name()+":"+fd2.Name.Name)
+				}
+				if fd2.Name.Name == "Transpile" && fd2.Recv == nil {
+					transpile = ipStmtTexts(fs2, fd2.Body.List)
+				}
+			}
+		}
+		if transpile == nil {
+			return "", fmt.Errorf("Transpile not found in logql_transpiler_v2")
+		}
+		fmt.Fprintf(&sb, "/-- the functions of package logql_transpiler_v2 that call Plan, and the statements of Transpile -/\n")
+		// callers from other packages of the reader tree (through whatever name the package is imported under)
+		var outside []string
+		werr := filepath.Walk(filepath.Join(repo, "reader"), func(path string, info os.FileInfo, err error) error {
+			if err != nil || info.IsDir() || !strings.HasSuffix(path, ".go") || strings.HasSuffix(path, "_test.go") {
+				return err
+			}
+			rel, _ := filepath.Rel(repo, path)
+			fs3, f3, err := parseFile(rel)
+			if err != nil {
+				return err
+			}
+			alias := ""
+			for _, im := range f3.Imports {
+				if strings.Trim(im.Path.Value, "\"") == "github.com/metrico/qryn/reader/logql/logql_transpiler_v2" {
+					alias = "logql_transpiler_v2"
+					if im.Name != nil {
+						alias = im.Name.Name
+					}
+				}
+			}
+			if alias == "" {
+				return nil
+			}
+			ast.Inspect(f3, func(n ast.Node) bool {
+				if ce, ok := n.(*ast.CallExpr); ok && ipExprText(fs3, ce.Fun) == alias+".Plan" {
+					outside = append(outside, rel)
+				}
+				return true
+			})
+			return nil
+		})
+		if werr != nil {
+			return "", werr
+		}
+		fmt.Fprintf(&sb, "def planCallers : List String := %s\n", ipLeanStrList(callers))
+		fmt.Fprintf(&sb, "def planCallersOutside : List String := %s\n", ipLeanStrList(outside))
+		fmt.Fprintf(&sb, "def transpileBody : List String := %s\n", ipLeanStrList(transpile))
+		// logql_parser.Parse: builds a parser and parses the text, nothing is kept
+		fset, f, err = parseFile("reader/logql/logql_parser/parser.go")
+		if err != nil {
+			return "", err
+		}
+		fd = findFunc(f, "", "Parse")
+		if fd == nil {
+			return "", fmt.Errorf("logql_parser.Parse not found")
+		}
+		fmt.Fprintf(&sb, "/-- the statements of logql_parser.Parse (no cache: every call parses the text afresh) -/\n")
+		fmt.Fprintf(&sb, "def parseBody : List String := %s\n", ipLeanStrList(ipStmtTexts(fset, fd.Body.List)))
 		sb.WriteString("end Qryn.Gen.InternalParams\n")
 		return sb.String(), nil
 	})
